@@ -56,17 +56,9 @@ func (d *docBuilder) addElem(text string) int {
 	return id
 }
 
-func textLen() int {
-	if nd.Tier() > 0 {
-		return 2
-	}
-	return 1
-}
+func textLen() int { return 1 }
 
 func strLen() int {
-	if nd.Tier() > 0 {
-		return 3
-	}
 	return 2
 }
 
@@ -129,6 +121,8 @@ func RunCompare() {
 	maxR, sl, sr := 2, strLen(), strLen()
 	if kl == 3 && kr == 3 {
 		maxR = 1
+	} else if nd.Tier() > 0 {
+		maxR = 3 // thorough: a node-set compared with a scalar has up to 3 nodes
 	}
 	if kr == 3 {
 		sl--
